@@ -234,6 +234,9 @@ func TestExhaustiveBoundaries(t *testing.T) {
 				base = 1 << k
 			}
 			v := base + uint64(int64(d))
+			// every unpacker sees the encoding of every boundary value (in range or not), with and without a tail
+			checkAllUnpack(t, refEncode(v))
+			checkAllUnpack(t, append(refEncode(v), 0x01))
 			checkPack(t, 64, v)
 			if v <= 1<<32-1 {
 				checkPack(t, 32, v)
